@@ -530,6 +530,9 @@ def check_common(case):
         if sort and not site.leg.is_sorted():
             bad('not-sorted', 'site %d: %s' % (s, site.leg.to_qflat().tolist()))
     out += [(k, '%s: %s' % (case, m)) for k, m in check_JW_parity(sites, 'common:%s' % tag)]
+    if tag == 'explicit' and any(fermionic_names(s) for s in sites):  # the new charges in use: JW string from the bond charges
+        from .c12_jw import Context, apply_local_ops
+        out += [('common:explicit:' + k, '%s: %s' % (case, m)) for k, m in apply_local_ops(Context(None, len(sites), case.get('seed', 0), cell=sites))]
     return out
 
 
